@@ -265,9 +265,14 @@ Lemma avr_or_none_s x : avr (or_none Sr x) = true. Proof. destruct x; reflexivit
 Lemma avr_or_none_i x : avr (or_none id_ x) = true. Proof. destruct x; reflexivity. Qed.
 Lemma avr_rname c hb n : avr (rname c hb n) = true. Proof. destruct n; reflexivity. Qed.
 
+Lemma mo_opt_n x : mo (opt_n x) = true. Proof. destruct x as [[[|] d]|]; reflexivity. Qed.
+Lemma avr_or_none_b x : avr (or_none PBool x) = true. Proof. destruct x as [[|]|]; reflexivity. Qed.
 Ltac mo_solve :=
   lazymatch goal with
   | |- mo (opt_b _) = true => apply mo_opt_b
+  | |- mo (opt_n _) = true => apply mo_opt_n
+  | |- avr (or_none PBool _) = true => apply avr_or_none_b
+  | |- mo (option_map _ ?x) = true => destruct x; reflexivity
   | |- mo (opt_s _) = true => apply mo_opt_s
   | |- mo (opt_i _) = true => apply mo_opt_i
   | |- mo None = true => reflexivity
@@ -282,12 +287,16 @@ Ltac mo_solve :=
   | |- avr (rname _ _ _) = true => apply avr_rname
   | |- _ => first [assumption | reflexivity]
   end.
-Ltac kw_solve := rewrite avr_kwlist'; cbn [forallb fst snd]; repeat (apply andb_true_iff; split); try mo_solve.
+Ltac kw_solve := unfold ixkw_items; cbn [app]; rewrite avr_kwlist'; cbn [forallb fst snd]; repeat (apply andb_true_iff; split); try mo_solve.
 
 Lemma avr_repr_type c t : ty_ok t = true -> avr (repr_type c t) = true.
 Proof. intros H. unfold repr_type. destruct (ty_mod t); rewrite avr_call; exact H. Qed.
 Lemma avr_sd c d : avr (render_server_default c d) = true.
-Proof. destruct d as [s|s|s p]; try reflexivity. cbn [render_server_default]. rewrite avr_call. cbn [forallb]. rewrite avr_Sr. kw_solve. Qed.
+Proof.
+  destruct d as [s|s|s p|i|]; try reflexivity; cbn [render_server_default]; rewrite avr_call.
+  - cbn [forallb]. rewrite avr_Sr. kw_solve.
+  - kw_solve.
+Qed.
 Lemma mo_oty c t : oty_ok t = true -> mo (option_map (repr_type c) t) = true.
 Proof. destruct t; cbn; [apply avr_repr_type|auto]. Qed.
 
@@ -360,8 +369,10 @@ Proof.
   intros T. unfold render_ops. induction ops as [|o r IH]; [reflexivity|].
   cbn [forallb] in T. apply andb_true_iff in T. destruct T as [To Tr].
   cbn [flat_map]. rewrite forallb_app, (IH Tr), andb_true_r.
-  destruct o as [t|n s ie ty|tn s o|tn s l]; cbn [render_top top_ty_ok] in *.
+  destruct o as [t| |sql|n s ie ty|tn s o|tn s l]; cbn [render_top top_ty_ok] in *.
   - cbn [forallb stmt_exprs]. rewrite avr_create_table; auto.
+  - reflexivity.
+  - reflexivity.
   - cbn [forallb stmt_exprs]. unfold render_drop_table. rewrite avr_call, forallb_app. cbn [forallb]. rewrite avr_id. cbn [andb].
     rewrite andb_true_r. kw_solve.
   - cbn [forallb stmt_exprs]. rewrite avr_tbl_op; auto.
@@ -533,12 +544,19 @@ Ltac pos_eval :=
 
 Lemma sd_not_none c d : render_server_default c d <> PNone.
 Proof. destruct d; discriminate. Qed.
+Lemma rt_opt_n x : opt_arg as_int (opt_n x) = Some x.
+Proof. destruct x as [[n d]|]; reflexivity. Qed.
+Lemma rt_or_none_b x : opt_arg as_bool (Some (or_none PBool x)) = Some x.
+Proof. destruct x as [[|]|]; reflexivity. Qed.
 Lemma rt_default c d : can_sd d = true -> as_default c (render_server_default c d) = Some d.
 Proof.
-  destruct d as [s|s|s p]; cbn [can_sd render_server_default]; intros H.
+  destruct d as [s|s|s p|i|]; cbn [can_sd render_server_default]; intros H.
   - apply str_eqb_eq in H. rewrite H. reflexivity.
   - cbn [as_default Sr]. rewrite str_eqb_refl. cbn [negb]. lit_cmp. reflexivity.
   - cbn [as_default Sr]. rewrite str_eqb_refl. cbn [negb]. lit_cmp. kw_eval. rewrite rt_opt_b. reflexivity.
+  - cbn [as_default]. rewrite str_eqb_refl. cbn [negb]. lit_cmp. unfold as_identity. kw_eval.
+    rewrite rt_or_none_b. cbn [obind]. rewrite !rt_opt_b, !rt_opt_n. cbn [obind option_map]. destruct i; reflexivity.
+  - cbn [as_default]. rewrite str_eqb_refl. cbn [negb]. lit_cmp. reflexivity.
 Qed.
 Lemma rt_odefault c d : match d with Some d => can_sd d | None => true end = true ->
   opt_arg (as_default c) (option_map (render_server_default c) d) = Some d.
@@ -563,14 +581,18 @@ Proof.
   unfold eval_column, render_column. cbn [c_name c_type c_default c_autoinc c_nullable c_system c_comment sa_call].
   rewrite str_eqb_refl. cbn [obind]. lit_cmp. cbn [negb].
   assert (A0: forall r, nth_pos 0 (id_ name :: r) = Some (id_ name)) by reflexivity.
-  destruct dflt as [[s|s|s p]|]; cbn [pos_default kw_default positional_default render_server_default app];
+  destruct dflt as [[s|s|s p|idn|]|]; cbn [pos_default kw_default positional_default render_server_default app];
     pos_eval; cbn [obind]; rewrite (rt_id _ H), (rt_type c ty) by assumption; cbn [obind]; kw_eval.
   - pose proof (rt_default c (SdStr s) H1) as R. cbn [render_server_default] in R. cbn [opt_arg Sr]. cbn [as_default Sr] in *.
     apply str_eqb_eq in H1. rewrite H1. cbn [option_map obind]. rewrite rt_opt_b. cbn [obind as_bool].
     destruct sy; cbn [when as_bool obind]; rewrite (rt_opt_s_truthy _ H0); reflexivity.
   - cbn [opt_arg]. pose proof (rt_default c (SdText s) H1) as R. cbn [render_server_default] in R. rewrite R. cbn [option_map obind].
     rewrite rt_opt_b. cbn [obind as_bool]. destruct sy; cbn [when as_bool obind]; rewrite (rt_opt_s_truthy _ H0); reflexivity.
-  - pose proof (rt_default c (SdComputed s p) H1) as R. cbn [render_server_default] in R. rewrite R. cbn [obind].
+  - pose proof (rt_default c (SdComputed s p) H1) as R. cbn [render_server_default] in R. rewrite R. cbn [positional_default obind].
+    rewrite rt_opt_b. cbn [obind as_bool]. destruct sy; cbn [when as_bool obind]; rewrite (rt_opt_s_truthy _ H0); reflexivity.
+  - pose proof (rt_default c (SdIdentity idn) H1) as R. cbn [render_server_default] in R. rewrite R. cbn [positional_default obind].
+    rewrite rt_opt_b. cbn [obind as_bool]. destruct sy; cbn [when as_bool obind]; rewrite (rt_opt_s_truthy _ H0); reflexivity.
+  - cbn [opt_arg]. pose proof (rt_default c SdFetched H1) as R. cbn [render_server_default] in R. rewrite R. cbn [option_map obind].
     rewrite rt_opt_b. cbn [obind as_bool]. destruct sy; cbn [when as_bool obind]; rewrite (rt_opt_s_truthy _ H0); reflexivity.
   - cbn [opt_arg obind]. rewrite rt_opt_b. cbn [obind as_bool]. destruct sy; cbn [when as_bool obind]; rewrite (rt_opt_s_truthy _ H0); reflexivity.
 Qed.
@@ -670,7 +692,11 @@ Proof. destruct x as [[s [q|]]|]; cbn; intros; try discriminate; reflexivity. Qe
 Lemma can_oident_weak x : can_oident x = true -> match x with Some i => can_ident i | None => true end = true.
 Proof. destruct x; cbn; [intros H; apply andb_true_iff in H; tauto|auto]. Qed.
 
-Ltac ev := unfold arg; pos_eval; kw_eval; cbn [obind].
+Lemma rt_where c x : opt_arg (as_sqltext c) (option_map (fun s => PCall [cfg_sa c; lit "text"] [Sr s]) x) = Some x.
+Proof. destruct x as [s|]; [|reflexivity]. cbn [option_map opt_arg as_sqltext Sr]. rewrite str_eqb_refl. lit_cmp. reflexivity. Qed.
+Lemma ixkw_eta k : mkIxKw (k_using k) (k_where k) (k_conc k) = k.
+Proof. destruct k; reflexivity. Qed.
+Ltac ev := unfold arg, ixkw_items, as_ixkw; cbn [app]; pos_eval; kw_eval; cbn [obind].
 Ltac hyps H := repeat (apply andb_true_iff in H; let H' := fresh "H" in destruct H as [H H']).
 
 (* the table-level operations: non-batch *)
@@ -700,10 +726,12 @@ Proof.
     rewrite E2. reflexivity.
   - rewrite !andb_true_iff in Ho. destruct Ho as [[A1 A2] A3].
     ev. rewrite rt_cname by assumption. cbn [obind]. rewrite (rt_id _ Ht). cbn [obind as_list].
-    rewrite rt_ixexprs by assumption. cbn [obind]. rewrite RS. cbn [obind as_bool]. rewrite rt_opt_b.
+    rewrite rt_ixexprs by assumption. cbn [obind]. rewrite RS. cbn [obind as_bool]. rewrite rt_opt_b. cbn [obind].
+    rewrite rt_opt_s, rt_where, rt_opt_b. cbn [obind]. rewrite ixkw_eta.
     destruct unique; [reflexivity|discriminate].
   - apply andb_true_iff in Ho. destruct Ho as [A1 A2]. subst name_stable.
-    ev. rewrite rt_cname by assumption. cbn [obind]. rewrite (rt_id _ Ht). cbn [obind]. rewrite RS. cbn [obind]. rewrite rt_opt_b. reflexivity.
+    ev. rewrite rt_cname by assumption. cbn [obind]. rewrite (rt_id _ Ht). cbn [obind]. rewrite RS. cbn [obind]. rewrite rt_opt_b. cbn [obind].
+    rewrite rt_opt_s, rt_where, rt_opt_b. cbn [obind]. rewrite ixkw_eta. reflexivity.
   - rewrite !andb_true_iff in Ho. destruct Ho as [[A1 A2] A3].
     ev. rewrite rt_cname by assumption. cbn [obind]. rewrite (rt_id _ Ht). cbn [obind as_list].
     rewrite rt_ids by assumption. cbn [obind]. rewrite RS. cbn [obind]. rewrite rt_opt_b, rt_opt_s_truthy by assumption. reflexivity.
@@ -748,10 +776,12 @@ Proof.
     rewrite E2. reflexivity.
   - rewrite !andb_true_iff in Ho. destruct Ho as [[A1 A2] A3].
     ev. rewrite rt_cname by assumption. cbn [obind as_list].
-    rewrite rt_ixexprs by assumption. cbn [obind as_bool]. rewrite rt_opt_b.
+    rewrite rt_ixexprs by assumption. cbn [obind as_bool]. rewrite rt_opt_b. cbn [obind].
+    rewrite rt_opt_s, rt_where, rt_opt_b. cbn [obind]. rewrite ixkw_eta.
     destruct unique; [reflexivity|discriminate].
   - apply andb_true_iff in Ho. destruct Ho as [A1 A2]. subst name_stable.
-    ev. rewrite rt_cname by assumption. cbn [obind]. rewrite rt_opt_b. reflexivity.
+    ev. rewrite rt_cname by assumption. cbn [obind]. rewrite rt_opt_b. cbn [obind].
+    rewrite rt_opt_s, rt_where, rt_opt_b. cbn [obind]. rewrite ixkw_eta. reflexivity.
   - rewrite !andb_true_iff in Ho. destruct Ho as [[A1 A2] A3].
     ev. rewrite rt_cname by assumption. cbn [obind as_list].
     rewrite rt_ids by assumption. cbn [obind]. rewrite rt_opt_b, rt_opt_s_truthy by assumption. reflexivity.
@@ -772,7 +802,7 @@ Qed.
 
 Lemma render_tbl_op_name c hb tn s o :
   match render_tbl_op c hb tn s o with
-  | PCall [p; f] _ => str_eqb f (lit "create_table") = false /\ str_eqb f (lit "drop_table") = false
+  | PCall [p; f] _ => str_eqb f (lit "create_table") = false /\ str_eqb f (lit "drop_table") = false /\ str_eqb f (lit "execute") = false
   | _ => True
   end.
 Proof. destruct o; cbn [render_tbl_op]; lit_cmp; auto. Qed.
@@ -790,8 +820,8 @@ Lemma eval_top_plain c tn s o : can_tbl_op c tn s o = true ->
 Proof.
   intros H. pose proof (rt_tbl_op_plain c tn s o dummy_id None H) as R. pose proof (render_tbl_op_name c false tn s o) as Nm.
   destruct (render_tbl_op c false tn s o) as [path args| | | | | | |]; try contradiction.
-  destruct path as [|p [|f [|? ?]]]; try contradiction. destruct R as [-> R]. destruct Nm as [N1 N2].
-  cbn [eval_stmt]. rewrite str_eqb_refl, N1, N2. cbn [negb]. rewrite R. reflexivity.
+  destruct path as [|p [|f [|? ?]]]; try contradiction. destruct R as [-> R]. destruct Nm as [N1 [N2 N3]].
+  cbn [eval_stmt]. rewrite str_eqb_refl, N1, N2, N3. cbn [negb]. rewrite R. reflexivity.
 Qed.
 
 Lemma eval_members_plain c l : forallb (fun m => can_tbl_op c (fst (fst m)) (snd (fst m)) (snd m)) l = true ->
@@ -838,9 +868,11 @@ Proof.
   unfold eval_stmts, render_ops, expected. induction ops as [|o r IH]; [reflexivity|].
   cbn [forallb flat_map] in *. apply andb_true_iff in H. destruct H as [Ho Hr].
   apply mapM_app; [|apply IH; exact Hr]. clear IH Hr.
-  destruct o as [t|n s ie ty|tn s o|tn s l]; cbn [render_top expected_top can_top] in *.
+  destruct o as [t| |sql|n s ie ty|tn s o|tn s l]; cbn [render_top expected_top can_top] in *.
   - cbn [mapM eval_stmt]. unfold render_create_table at 1. rewrite str_eqb_refl. cbn [negb]. lit_cmp.
     pose proof (rt_create_table c t Ho) as R. unfold render_create_table in R. rewrite R. reflexivity.
+  - discriminate.
+  - cbn [mapM eval_stmt]. rewrite str_eqb_refl. lit_cmp. cbn [negb]. reflexivity.
   - rewrite !andb_true_iff in Ho. destruct Ho as [[A1 A2] A3]. apply negb_true_iff in A3. subst ty.
     cbn [mapM eval_stmt]. unfold render_drop_table. rewrite str_eqb_refl. cbn [negb]. lit_cmp. cbn [app].
     pos_eval. cbn [obind]. rewrite (rt_id _ A1). cbn [obind]. kw_eval. rewrite rt_opt_i_truthy by assumption. cbn [obind].
@@ -890,8 +922,14 @@ Lemma cname_eqb_refl n : cname_eqb n n = true.
 Proof. destruct n; cbn; [reflexivity|apply ident_eqb_refl|apply str_eqb_refl]. Qed.
 Lemma tytok_eqb_refl t : tytok_eqb t t = true.
 Proof. unfold tytok_eqb. rewrite strs_eqb_refl, pyexprs_eqb_refl. destruct (ty_mod t); cbn; rewrite ?str_eqb_refl; reflexivity. Qed.
+Lemma pint_eqb_refl p : pint_eqb p p = true.
+Proof. unfold pint_eqb. rewrite bool_eqb_refl, str_eqb_refl. reflexivity. Qed.
+Lemma identity_eqb_refl i : identity_eqb i i = true.
+Proof. unfold identity_eqb, opint_eqb. rewrite !option_eqb_refl by (first [apply bool_eqb_refl | apply pint_eqb_refl]). reflexivity. Qed.
+Lemma ixkw_eqb_refl k : ixkw_eqb k k = true.
+Proof. unfold ixkw_eqb. rewrite !ostr_eqb_refl, obool_eqb_refl. reflexivity. Qed.
 Lemma sdefault_eqb_refl d : sdefault_eqb d d = true.
-Proof. destruct d; cbn; rewrite ?str_eqb_refl; try reflexivity. apply option_eqb_refl, bool_eqb_refl. Qed.
+Proof. destruct d; cbn; rewrite ?str_eqb_refl; try reflexivity; [apply option_eqb_refl, bool_eqb_refl|apply identity_eqb_refl]. Qed.
 Lemma column_eqb_refl x : column_eqb x x = true.
 Proof. unfold column_eqb. rewrite ident_eqb_refl, tytok_eqb_refl, obool_eqb_refl, !bool_eqb_refl, ostr_eqb_refl.
   rewrite option_eqb_refl by apply sdefault_eqb_refl. reflexivity. Qed.
@@ -912,11 +950,11 @@ Lemma fkop_eqb_refl f : fkop_eqb f f = true.
 Proof. unfold fkop_eqb. rewrite cname_eqb_refl, ident_eqb_refl, !idents_eqb_refl, !ostr_eqb_refl, !obool_eqb_refl. reflexivity. Qed.
 Lemma tbl_op_eqb_refl o : tbl_op_eqb o o = true.
 Proof. destruct o; cbn; rewrite ?column_eqb_refl, ?ident_eqb_refl, ?altercol_eqb_refl, ?cname_eqb_refl, ?obool_eqb_refl, ?idents_eqb_refl,
-  ?ostr_eqb_refl, ?fkop_eqb_refl, ?oident_eqb_refl, ?bool_eqb_refl; try reflexivity. rewrite list_eqb_refl by apply ixexpr_eqb_refl. reflexivity. Qed.
+  ?ostr_eqb_refl, ?fkop_eqb_refl, ?oident_eqb_refl, ?bool_eqb_refl, ?ixkw_eqb_refl; try reflexivity. rewrite list_eqb_refl by apply ixexpr_eqb_refl. reflexivity. Qed.
 Lemma member_eqb_refl m : member_eqb m m = true.
 Proof. unfold member_eqb. rewrite ident_eqb_refl, oident_eqb_refl, tbl_op_eqb_refl. reflexivity. Qed.
 Lemma top_op_eqb_refl o : top_op_eqb o o = true.
-Proof. destruct o; cbn; rewrite ?table_eqb_refl, ?ident_eqb_refl, ?oident_eqb_refl, ?obool_eqb_refl, ?bool_eqb_refl; try reflexivity.
+Proof. destruct o; cbn; rewrite ?table_eqb_refl, ?ident_eqb_refl, ?oident_eqb_refl, ?obool_eqb_refl, ?bool_eqb_refl, ?str_eqb_refl; try reflexivity.
   - apply member_eqb_refl.
   - apply list_eqb_refl, member_eqb_refl. Qed.
 Lemma ops_eqb_refl l : ops_eqb l l = true.
@@ -925,6 +963,9 @@ Proof. apply list_eqb_refl, top_op_eqb_refl. Qed.
 Theorem decider_sound i o : check_C08 i o = true -> C08_holds i o.
 Proof. unfold check_C08, C08_holds. destruct (o_parsed o) as [st|]; [|discriminate]. intros H. apply andb_true_iff in H. destruct H as [H1 H2].
   split; [exists st; reflexivity|]. split; assumption. Qed.
+
+Theorem decider_complete i o : C08_holds i o -> check_C08 i o = true.
+Proof. unfold check_C08, C08_holds. intros [[st ->] [H1 H2]]. rewrite H1, H2. reflexivity. Qed.
 
 Theorem model_holds i : inclass_C08 i = true -> C08_holds i (model_C08 i).
 Proof.
@@ -1105,13 +1146,25 @@ Section WF.
   Qed.
   Lemma strip_quotes_valid s : valid_strb s = true -> valid_strb (strip_quotes s) = true.
   Proof. unfold valid_strb. rewrite !forallb_forall. intros H x Hx. apply H. apply strip_quotes_in. exact Hx. Qed.
+  Lemma mw_opt_n x : wf_opint x = true -> mw (opt_n x) = true.
+  Proof.
+    destruct x as [[n d]|]; [|reflexivity]. cbn [wf_opint opt_n option_map mw fst snd]. intros H.
+    unfold wf_expr. destruct n; cbn [toks app forallb wf_tok]; rewrite H; reflexivity.
+  Qed.
+  Lemma wfe_or_none_b x : wfe (or_none PBool x) = true. Proof. destruct x as [[|]|]; reflexivity. Qed.
+  Lemma mw_where x : wf_ostr x = true -> mw (option_map (fun s => PCall [cfg_sa c; lit "text"] [Sr s]) x) = true.
+  Proof. destruct x as [s|]; [|reflexivity]. cbn [wf_ostr option_map mw]. intros H. rewrite wfe_call. cbn [forallb]. lit_ok. rewrite Hsa, wfe_Sr, H. reflexivity. Qed.
   Lemma wfe_sd d : wf_sd d = true -> wfe (render_server_default c d) = true.
   Proof.
-    destruct d as [s|s|s p]; cbn [wf_sd render_server_default]; intros H.
+    destruct d as [s|s|s p|i|]; cbn [wf_sd render_server_default]; intros H.
     - rewrite wfe_Sr. apply strip_quotes_valid. exact H.
     - rewrite wfe_call. cbn [forallb]. rewrite wfe_Sr, H, Hsa. reflexivity.
     - rewrite wfe_call. cbn [forallb]. rewrite wfe_Sr, H, Hsa. lit_ok. cbn [andb]. rewrite wfe_kwlist by reflexivity. cbn [forallb fst snd].
       rewrite mw_opt_b. reflexivity.
+    - unfold wf_identity in H. rewrite !andb_true_iff in H. destruct H as [[[[I1 I2] I3] I4] I5].
+      rewrite wfe_call. cbn [forallb]. lit_ok. rewrite Hsa. cbn [andb]. rewrite wfe_kwlist by reflexivity. cbn [forallb fst snd mw].
+      rewrite wfe_or_none_b, !mw_opt_b, !mw_opt_n by assumption. reflexivity.
+    - rewrite wfe_call. cbn [forallb]. lit_ok. rewrite Hsa. reflexivity.
   Qed.
 
   Ltac mw_solve :=
@@ -1122,6 +1175,7 @@ Section WF.
     | |- mw (opt_i (truthy _)) = true => apply mw_opt_i, truthy_wf; assumption
     | |- mw (opt_i _) = true => apply mw_opt_i; assumption
     | |- mw None = true => reflexivity
+    | |- mw (option_map (fun s => PCall _ _) _) = true => apply mw_where; assumption
     | |- mw (if _ then None else _) = true => apply mw_if; mw_solve
     | |- mw (when _ _) = true => apply mw_when; mw_solve
     | |- mw (Some _) = true => unfold mw; mw_solve
@@ -1132,7 +1186,7 @@ Section WF.
     | |- wfe (rname _ _ _) = true => apply wfe_rname; assumption
     | |- _ => first [assumption | reflexivity]
     end.
-  Ltac kww := rewrite wfe_kwlist by reflexivity; cbn [forallb fst snd]; repeat (apply andb_true_iff; split); try mw_solve.
+  Ltac kww := unfold ixkw_items; cbn [app]; rewrite wfe_kwlist by reflexivity; cbn [forallb fst snd]; repeat (apply andb_true_iff; split); try mw_solve.
 
   Lemma wfe_column x : wf_column x = true -> wfe (render_column c x) = true.
   Proof.
@@ -1202,8 +1256,10 @@ Section WF.
       + apply (mw_tri _ valid_strb); [intros a0 Ha; rewrite wfe_Sr; exact Ha|exact A6].
       + destruct (a_nullable a); mw_solve.
       + destruct (a_server_default a); try mw_solve. apply (mw_map _ wf_sd); [apply wfe_sd|exact A8].
-    - apply andb_true_iff in Ho. destruct Ho as [A1 A2]. rewrite wfe_rname, wfe_list, wfe_map_ix by assumption. cbn [andb]. kww.
-    - rewrite wfe_rname by assumption. cbn [andb]. kww.
+    - rewrite !andb_true_iff in Ho. destruct Ho as [[A1 A2] A3]. unfold wf_ixkw in A3. apply andb_true_iff in A3. destruct A3 as [K1 K2].
+      rewrite wfe_rname, wfe_list, wfe_map_ix by assumption. cbn [andb]. kww.
+    - apply andb_true_iff in Ho. destruct Ho as [A1 A3]. unfold wf_ixkw in A3. apply andb_true_iff in A3. destruct A3 as [K1 K2].
+      rewrite wfe_rname by assumption. cbn [andb]. kww.
     - rewrite !andb_true_iff in Ho. destruct Ho as [[A1 A2] A3]. rewrite wfe_rname, wfe_list, wfe_map_id, A2 by assumption. cbn [andb]. kww.
     - unfold wf_fk in Ho. rewrite !andb_true_iff in Ho. destruct Ho as [[[[[[[[[A1 A2] A3] A4] A5] A6] A7] A8] A9] A10].
       rewrite wfe_rname, wfe_id, A2, !wfe_list, !wfe_map_id, A3, A4 by assumption. cbn [andb]. kww.
@@ -1218,8 +1274,10 @@ Section WF.
     intros T. unfold render_ops. induction ops as [|o r IH]; [reflexivity|].
     cbn [forallb] in T. apply andb_true_iff in T. destruct T as [To Tr].
     cbn [flat_map]. rewrite forallb_app, (IH Tr), andb_true_r.
-    destruct o as [t|n s ie ty|tn s o|tn s l]; cbn [render_top wf_top] in *.
+    destruct o as [t| |sql|n s ie ty|tn s o|tn s l]; cbn [render_top wf_top] in *.
     - cbn [forallb stmt_exprs]. rewrite wfe_create_table; auto.
+    - reflexivity.
+    - cbn [forallb stmt_exprs]. rewrite wfe_call. cbn [forallb]. lit_ok. rewrite Hop, wfe_Sr, To. reflexivity.
     - apply andb_true_iff in To. destruct To as [A1 A2].
       cbn [forallb stmt_exprs]. unfold render_drop_table. rewrite wfe_call. cbn [forallb app]. lit_ok. rewrite Hop, wfe_id, A1. cbn [andb].
       rewrite andb_true_r. kww.
